@@ -347,6 +347,16 @@ def connection_case(ctx, seed, idx):
     state = {'msg': None}
     mi_state = [idx]
     serial = [500]
+    # another connection of the same process holding a catch-all rule: signals delivered to the first connection are none
+    # of its business
+    other = None
+    other_calls = []
+    if idx % 3 == 0:
+        other = clientfix.Peer().ready()
+        other.proto.addMatch(lambda m_: other_calls.append(m_))
+        for m_ in other.take():
+            if m_.fields.get('member') == 'AddMatch':
+                other.send(RM.build(RM.METHOD_RETURN, 499, {'reply_serial': m_.serial}))
 
     def answer_pending(ok=True):
         for m in peer.take():
@@ -412,6 +422,12 @@ def connection_case(ctx, seed, idx):
         if peer.ep.crashes:
             ctx.report('crash', 'connection crashed with %r while routing a signal' % peer.ep.crashes[0], w, case)
             return
+        if other_calls:
+            ctx.report('other-connection-callback', 'a signal delivered on one connection ran a callback registered on ANOTHER '
+                       'connection of the process', w, case)
+            return
+        if other is not None:
+            ctx.count('other_connection_silent')
         got = [k for k, _ in calls[start:]]
         for k, v in rules.items():
             want = v['active'] and RMATCH.matches(v['rule'], eff)
@@ -483,16 +499,64 @@ def proxy_case(ctx, seed, idx):
                 'another signature' if sig != declared else 'another path/member/interface'), w, case)
             return
         ctx.distinct('nontrivial_cases', ('proxy', declared, sig, want))
-    # cancel
-    proxy.cancelSignalNotification(sub.results[0][1])
+    # a proxy on ANOTHER connection of the process subscribes as well (rule ids are per connection, so both hold the same
+    # id) and a second proxy on the same connection too: cancelling one subscription must neither cancel nor keep the others
+    peer2 = clientfix.Peer().ready()
+    proxy2 = clientfix.Outcome(peer2.proto.getRemoteObject('org.verif.Svc', '/a/b', iface)).results[0][1]
+    got2 = []
+    sub2 = clientfix.Outcome(proxy2.notifyOnSignal('Changed', lambda *a: got2.append(a)))
+    for m in peer2.take():
+        if m.fields.get('member') == 'AddMatch':
+            peer2.send(RM.build(RM.METHOD_RETURN, 79, {'reply_serial': m.serial}))
+    proxy3 = clientfix.Outcome(conn.getRemoteObject('org.verif.Svc', '/a/b', iface)).results[0][1]
+    got3 = []
+    sub3 = clientfix.Outcome(proxy3.notifyOnSignal('Changed', lambda *a: got3.append(a)))
     for m in peer.take():
-        if m.fields.get('member') == 'RemoveMatch':
-            peer.send(RM.build(RM.METHOD_RETURN, 78, {'reply_serial': m.serial}))
-    start = len(got)
+        if m.fields.get('member') == 'AddMatch':
+            peer.send(RM.build(RM.METHOD_RETURN, 80, {'reply_serial': m.serial}))
     body = [('z' if c == 's' else 1) for c in declared]
-    peer.send(RM.build(RM.SIGNAL, 3999, {'path': '/a/b', 'member': 'Changed', 'interface': iface.name}, declared, body))
-    if got[start:]:
-        ctx.report('called-after-removal', 'proxy callback ran after cancelSignalNotification completed', {}, case)
+
+    def fire(p_, serial_):
+        p_.send(RM.build(RM.SIGNAL, serial_, {'path': '/a/b', 'member': 'Changed', 'interface': iface.name}, declared, body))
+
+    def cancel(px, sub_, p_):
+        px.cancelSignalNotification(sub_.results[0][1])
+        n_ = 0
+        for m in p_.take():
+            if m.fields.get('member') == 'RemoveMatch':
+                n_ += 1
+                p_.send(RM.build(RM.METHOD_RETURN, 78, {'reply_serial': m.serial}))
+        return n_
+    if sub2.fired != 1 or sub3.fired != 1:
+        ctx.report('proxy-subscription-rule', 'further subscriptions did not complete', {}, case)
+        return
+    order = r.choice([(1, 2, 3), (2, 1, 3), (3, 1, 2), (1, 3, 2)])
+    live = {1, 2, 3}
+    subs = {1: (proxy, sub, peer, got), 2: (proxy2, sub2, peer2, got2), 3: (proxy3, sub3, peer, got3)}
+    for which in order:
+        px, sb, pr, _ = subs[which]
+        removed = cancel(px, sb, pr)
+        live.discard(which)
+        ctx.count('evaluations')
+        ctx.count('proxy_cancellations')
+        w = {'cancel_order': list(order), 'cancelled': which, 'declared': declared}
+        if removed != 1:
+            ctx.report('removematch-call', 'cancelSignalNotification of subscription %d sent %d RemoveMatch calls' % (
+                which, removed), w, case)
+            return
+        marks = {k_: len(v_[3]) for k_, v_ in subs.items()}
+        fire(peer, 3990 + which)
+        fire(peer2, 3995 + which)
+        for k_, (_, _, _, g_) in subs.items():
+            n_new = len(g_) - marks[k_]
+            if k_ in live and n_new != 1:
+                ctx.report('live-subscription-lost', 'after subscription %d was cancelled, the still subscribed callback %d '
+                           'ran %d times for a matching signal on its connection' % (which, k_, n_new), w, case)
+                return
+            if k_ not in live and n_new:
+                ctx.report('called-after-removal', 'proxy callback %d ran after its cancelSignalNotification completed' % k_,
+                           w, case)
+                return
 
 
 def run(ctx):
